@@ -535,6 +535,43 @@ def run_shard(spec, acc):
                 acc.violation("clean-packet-lost:on-the-connection-after-a-failed-send", f"the link is lost {cut_at} bytes into a packet (noticed by a failing "
                               f"{'flush' if rep % 2 else 'write'} of a send), the port is opened again: delivered sources {got_}, sent {want_}",
                               {"cut_at": cut_at, "variant": "drain" if rep % 2 else "write", "delivered": got_, "sent": want_})
+        # a client that builds the network map, whose application registers the receive callback a moment AFTER connect(): the
+        # devices' address claims arrive in the very first reads, nobody is listening yet; every packet that follows the
+        # registration is delivered (the claims were seen by the client's decoder all the same)
+        from .c13 import claim_packet
+        for rep in range(4 if quick else 40):
+            srcs = [10 + rep, 40 + rep, 90 + rep]
+            pks = []
+            for k in range(12):
+                p_ = bytearray(valid_packet(rng, k))
+                p_[5] = srcs[k % 3]
+                p_[19] = wire.usb_checksum(bytes(p_))
+                if b"\xaa\x55" in bytes(p_[2:]) or p_[19] == 0xAA:
+                    continue
+                pks.append(bytes(p_))
+
+            async def scenario(sim, srcs=srcs, pks=pks):
+                sim.spawn("connect")
+                await asyncio.sleep(0.05)
+                sim.client.set_receive_callback(None)
+                c0 = sim.conns[0]
+                c0.feed(b"".join(claim_packet("waveshare", s_) for s_ in srcs))
+                await asyncio.sleep(0.3)
+                sim.client.set_receive_callback(sim._styled(sim._on_receive))
+                c0.feed(b"".join(pks))
+                await asyncio.sleep(1.0)
+                await sim.close_guarded()
+            sim, stats = simgw.run_session("waveshare", scenario, client_kwargs={"build_network_map": True})
+            acc.count("sessions")
+            acc.count("mapping_sessions_with_late_callback_registration")
+            if stats["error"] or sim is None:
+                acc.inconclusive_because(f"simulator: {stats['error']}")
+                continue
+            got_ = [m.source for m in sim.received if m.PGN != 60928]
+            acc.case(("late-registration", rep, len(pks)))
+            if got_ != [p_[5] for p_ in pks]:
+                acc.violation("clean-packet-lost:after-late-callback-registration", f"network map on, claims of {srcs} arrive before the application registers its callback: "
+                              f"{len(got_)} of {len(pks)} packets sent after the registration were delivered", {"delivered": got_, "sent": [p_[5] for p_ in pks]})
         # a saturated port: thousands of valid packets (or packets after a flood of noise) with never a short read
         for n_pk, chunk in ([(3000, 1 << 20), (1500, 4096)] if quick else [(3000, 1 << 20), (30000, 1 << 22), (8000, 4096), (8000, 1000)]):
             for flood in (0, 50_000):
